@@ -288,10 +288,10 @@ GUARDS = {
 
 
 def choose(ctx, cases, thorough):
-    """quick: 6 probe-template worlds + 6 built-in-template worlds; thorough: ~100."""
+    """quick: 6 probe-template worlds + 6 built-in-template worlds; thorough: ~220."""
     idx = list(range(len(cases)))
     ctx.rng.shuffle(idx)
-    per = 8 if thorough else 1
+    per = 14 if thorough else 1
     probe, builtin = [], []
 
     def take(pred, n, into, extra=lambda c: True):
@@ -310,12 +310,12 @@ def choose(ctx, cases, thorough):
     take(GUARDS["schemas-differ-valid"], 1 * per, probe)
     take(lambda c: GUARDS["many-files"](c) or GUARDS["several-mocks-per-file"](c), 1 * per, probe, lambda c: c["W"]["g"]["mode"] == "same")
     if thorough:
-        take(lambda c: True, 12, probe)
+        take(lambda c: True, 30, probe)
     b = []
     take(lambda c: GUARDS["no-schema"](c) and GUARDS["nested-recursive"](c), 2 * per, b)
     take(lambda c: GUARDS["no-schema"](c) and GUARDS["several-mocks-per-file"](c), 2 * per, b)
     take(lambda c: GUARDS["no-schema"](c) and "T" in c["W"]["rec"], 1 * per, b)
-    take(GUARDS["no-schema"], (1 * per) if not thorough else 16, b)
+    take(GUARDS["no-schema"], (1 * per) if not thorough else 40, b)
     # the first built-in world has nested recursive packages: its mocks go to a directory BELOW the sources, which a
     # re-run discovers as a new sub-package; the other layouts rotate with the seed
     sub = next(p for p in BUILTIN if p["name"] == "testify-subdir-noop")
@@ -445,8 +445,13 @@ def run(ctx):
             raise MachineryError("no world with a failing run was observed (the exit-status half would be vacuous)")
         if n_idem < 6:
             raise MachineryError(f"only {n_idem} worlds reached the idempotence re-run")
-        if not any(o["initpkg_orders_seen"] >= 2 for o in orders_evidence) or not any(o["filebegin_orders_seen"] >= 2 for o in orders_evidence):
-            raise MachineryError("no world was observed under two different map orders")
+        if not any(e.get("ev") == "InitPkg" for w in worlds for rr in w["runs"] for e in rr["trace"]) or \
+                not any(e.get("ev") == "FileBegin" for w in worlds for rr in w["runs"] for e in rr["trace"]):
+            raise MachineryError("no InitPkg / FileBegin events were recorded: the iteration order cannot be observed")
+        if not any(o["initpkg_orders_seen"] >= 2 for o in orders_evidence):
+            ctx.note("no world was visited in two different package orders: the implementation appears to iterate deterministically")
+        if not any(o["filebegin_orders_seen"] >= 2 for o in orders_evidence):
+            ctx.note("no world rendered its files in two different orders: the implementation appears to iterate deterministically")
     t0 = time.time()
     def flip_exit(evs):
         for e in evs:
